@@ -347,3 +347,81 @@ def run(ck, prog):
 
 
 EXPLANATION += (' (E) BBDTree::filter addresses centroids through the candidate list of the cell (centroids[candidates[..]]), never by a raw number.')
+
+
+# ------------------------------------------------------------------ the returned centroids belong to the returned assignment
+_run_pre_order = run
+
+
+def centroids_after_assignment(ck, prog):
+    """'each centroid with members is the mean of the training rows LAST assigned to it': inside the Lloyd loop the centroid
+    update follows the assignment step of the same iteration on every path that leaves the loop - also when the loop ends by
+    exhausting max_iter. Ordering rule on the CFG: from the block of the `clustering` call no loop exit is reachable (back
+    edges cut) without passing a store into the centroid table."""
+    from sa.isolation import natural_loops
+    rule, inst = "E2-order", "KMeans::fit: every exit of the Lloyd loop lies behind the centroid update that follows the last assignment"
+    bs = prog.find(r"^cluster::kmeans::KMeans::<T>::fit$")
+    if len(bs) != 1:
+        ck.violation(rule, inst, "KMeans::fit", "", expected="anchor exists", found=f"{len(bs)} bodies")
+        return
+    b = bs[0]
+    res = Resolver(b)
+    calls = [bb for bb, t in b.calls() if t.get("f") and t["f"]["path"].endswith("::clustering")]
+    if len(calls) != 1:
+        ck.note(f"{inst}: {len(calls)} assignment-step calls in KMeans::fit: no instance")
+        return
+    cbb = calls[0]
+    # the centroid table: the local stored into the model's `centroids` field
+    cl = None
+    for i, j, s in b.stmts():
+        r = s["r"] if s["k"] == "assign" else None
+        if r and r["k"] == "agg" and r.get("name", "").endswith("kmeans::KMeans") and "centroids" in r.get("fields", []):
+            o = r["ops"][r["fields"].index("centroids")]
+            if o["k"] in ("move", "copy") and not o["p"]["pr"]:
+                cl = o["p"]["l"]
+                for _ in range(5):
+                    ds = b.defs.get(cl, [])
+                    if len(ds) == 1 and ds[0].kind == "assign" and ds[0].data["r"]["k"] == "use" and ds[0].data["r"]["o"]["k"] in ("move", "copy") \
+                            and not ds[0].data["r"]["o"]["p"]["pr"]:
+                        cl = ds[0].data["r"]["o"]["p"]["l"]
+                    else:
+                        break
+    if cl is None:
+        ck.note(f"{inst}: the centroid table handed to the model was not identified: no instance")
+        return
+    loops = natural_loops(b)
+    mine = [(h, nodes) for h, nodes in loops.items() if cbb in nodes]
+    if not mine:
+        ck.note(f"{inst}: the assignment step is not inside a loop: no instance")
+        return
+    h, nodes = max(mine, key=lambda x: len(x[1]))
+    upd = {d.bb for d in b.defs.get(cl, []) if d.kind in ("store", "mutcall") and d.bb in nodes and
+           not (d.kind == "mutcall" and d.data["f"]["path"].endswith(("::clustering", "::deref", "::as_slice", "::len", "::iter", "Index::index")))}
+    be = guards.back_edges(b)
+    # the update is a loop over the clusters whose body stores conditionally (`if size[i] > 0`): passing the update means passing
+    # the header of the outermost inner loop that contains a store
+    cutset = set(upd)
+    for h2, n2 in loops.items():
+        if h2 != h and n2 < nodes and (n2 & upd):
+            cutset.add(h2)
+    reach = b.reachable_from([cbb], cut_edges=be, cut_blocks=frozenset(cutset))
+    exits = sorted({v for u in reach if u in nodes for v in b.succs[u] if v not in nodes and not b.blocks[v]["cleanup"] and not b.is_panic_block(v)})
+    # exits taken through `?`/panic paths do not return a model; keep those from which the constructor is reachable
+    ctor = [i for i, j, s in b.stmts() if s["k"] == "assign" and s["r"]["k"] == "agg" and s["r"].get("name", "").endswith("kmeans::KMeans")]
+    exits = [v for v in exits if any(c in b.reachable_from([v]) for c in ctor)]
+    if not upd:
+        ck.violation(rule, inst, b.path, b.where(cbb), expected="a centroid update inside the loop", found="the loop never stores into the centroid table")
+    elif exits:
+        ck.violation(rule, inst, b.path, b.where(cbb), expected="assignment step, then centroid update, then the exit tests",
+                     found=f"the loop can be left at {b.where(exits[0])} after an assignment step without a centroid update in between: when max_iter is "
+                           f"exhausted the returned centroids are the means of the previous assignment")
+    else:
+        ck.ok(rule, inst, b.path, b.where(cbb), f"{len(upd)} update block(s) cut every path from the assignment step to a loop exit")
+
+
+def run(ck, prog):
+    _run_pre_order(ck, prog)
+    centroids_after_assignment(ck, prog)
+
+
+EXPLANATION += (' (F) In KMeans::fit no exit of the Lloyd loop is reachable from the assignment step without passing the centroid update (E2-order): the returned centroids belong to the returned assignment, also when max_iter is exhausted.')
